@@ -897,13 +897,14 @@ def run(ctx):
     # --- part 4: ppm.DSP
     cases = []
     plain = [c for c in lat1 if not is_notation(c)] + CORNERS       # where the further data words are run
-    for ci, c in enumerate(dsp_cfgs):
+    for c in dsp_cfgs:
         for mi, M in enumerate((2, 4, 8, 16)):
             # the ragged data words test the length handling, not the eye: not repeated on the quick tier's extra eye pairs
             for ki, which in enumerate(ppm_kinds(M)[:3] if c in pair_only else ppm_kinds(M)):
                 for si, s in enumerate(seeds_of(c)):
                     # the order M as a Python int with the first seed, as a numpy integer (rotating over M_FORMS) with the others
-                    opt = {} if si == 0 else {'mform': M_FORMS[1 + (ci + mi + ki + si) % (len(M_FORMS) - 1)]}
+                    # (independent of the position of the configuration, so that the thorough tier contains the quick assignments)
+                    opt = {} if si == 0 else {'mform': M_FORMS[1 + (mi + ki + si) % (len(M_FORMS) - 1)]}
                     cases.append((c, M, which, ppm_data(M, which, seed), s) + ((opt,) if opt else ()))
     for c in plain:
         for M in (2, 4, 8, 16):
